@@ -38,7 +38,8 @@ impl Gen for chrono::DateTime<chrono::Utc> {
 impl Gen for chrono::DateTime<chrono::FixedOffset> {
     fn gen(s: &mut Src) -> Self {
         let utc = chrono::DateTime::<chrono::Utc>::gen(s);
-        let off = (s.u64() % 172_000) as i32 - 86_000;
+        // whole minutes: chrono's RFC 3339 text form cannot carry offset seconds
+        let off = ((s.u64() % 2_800) as i32 - 1_400) * 60;
         utc.with_timezone(&chrono::FixedOffset::east_opt(off).unwrap())
     }
     fn extremes() -> Vec<Self> {
